@@ -822,6 +822,9 @@ fn trace(a: &Args) -> Result<()> {
     let ncases: usize = a.num("cases", 4usize);
     let nreads: usize = a.num("reads", 12usize);
     let jobs: usize = a.num("jobs", 4usize);
+    // --big N: case 0 is an archive of N homologous one-record samples (every LZ group then holds N segments: with N > 51 its delta
+    // stream has two packs), read with request lists that mix samples of the first and of the last pack
+    let big: usize = a.num("big", 0usize);
     let next = AtomicUsize::new(0);
     let all: Mutex<Vec<(usize, Vec<Value>)>> = Mutex::new(vec![]);
     let err: Mutex<Option<String>> = Mutex::new(None);
@@ -837,13 +840,14 @@ fn trace(a: &Args) -> Result<()> {
                     let wd = dir.join(format!("t{}", ci));
                     std::fs::create_dir_all(&wd)?;
                     let agc = wd.join("a.agc");
-                    let pansn = ci % 3 == 2;
+                    let is_big = big > 0 && ci == 0;
+                    let pansn = ci % 3 == 2 && !is_big;
                     let mut cat: Vec<(Name, usize)> = vec![];
-                    let m = r.gen_range(2..=5);
+                    let m = if is_big { big } else { r.gen_range(2..=5) };
                     while cat.len() < m {
                         let n = rand_name(&mut r, pansn);
                         if !cat.iter().any(|(x, _)| *x == n) {
-                            cat.push((n, r.gen_range(1..=3)));
+                            cat.push((n, if is_big { 1 } else { r.gen_range(1..=3) }));
                         }
                     }
                     let files: Vec<Vec<(Name, usize)>> = if pansn { vec![cat.clone()] } else { cat.iter().map(|s| vec![s.clone()]).collect() };
@@ -871,7 +875,19 @@ fn trace(a: &Args) -> Result<()> {
                             c
                         } else {
                             let live: Vec<(Name, usize)> = cur.cat.iter().cloned().zip(cur.nrec.iter().cloned()).collect();
-                            rand_read(&mut r, &live, pansn)
+                            if is_big && live.len() >= 12 && r.gen_bool(0.8) {
+                                // names from both ends of the catalogue (= of the in-group id range): the answers have to be decoded
+                                // from different packs of the same groups within ONE invocation
+                                let focus: Vec<(Name, usize)> = live[..4].iter().chain(live[live.len() - 6..].iter()).cloned().collect();
+                                let mut c = rand_read(&mut r, &focus, pansn);
+                                if c["cmd"] == json!("getset") && c["mode"] != json!("prefix") {
+                                    let l = r.gen_range(2..=5);
+                                    c["names"] = json!((0..l).map(|j| focus[if j % 2 == 0 { r.gen_range(0..4) } else { r.gen_range(4..10) }].0.clone()).collect::<Vec<_>>());
+                                }
+                                c
+                            } else {
+                                rand_read(&mut r, &live, pansn)
+                            }
                         };
                         let o = execute(&w, &c, &agc, &wd, step, &mut known)?;
                         evs.push(event(&c, &o));
